@@ -38,10 +38,10 @@ func init() {
 	base := *worldProps["C09"]
 	base.Name = "C09AVS"
 	w := avsWeights()
-	for k, v := range map[string]int{"regToken": 3, "regChain": 2, "updToken": 2, "optIn": 2, "optOut": 1, "setKey": 2, "undelegate": 3, "rawCall": 22} {
+	for k, v := range map[string]int{"regToken": 3, "regChain": 2, "updToken": 2, "depositTok": 3, "optIn": 2, "optOut": 1, "setKey": 2, "undelegate": 3, "rawCall": 22} {
 		w[k] = v
 	}
-	base.Gen = GenOpts{Weights: w, HostilePct: 25, ExtremePct: 2, Anchor: true, Tempos: []int{7, 12, 21}, CapBits: 40, ClampBits: 40, Dynamic: avsDynamic}
+	base.Gen = GenOpts{Weights: w, HostilePct: 25, ExtremePct: 2, Anchor: true, Tempos: []int{7, 12, 21}, CapBits: 40, ClampBits: 40, Dynamic: avsDynamic, WideChains: true}
 	base.Config = avsConfig
 	base.MinSteps, base.MaxSteps = 40, 120
 	registerWorldProp(&base)
